@@ -1640,12 +1640,23 @@ fn c08_id_tables(input: &str) -> Option<String> {
     let mut pres: Vec<(String, xot::PrefixId)> = Vec::new();
     let order: Vec<usize> = (0..n).map(|i| (i * stride) % n).collect();
     for (step, i) in order.iter().enumerate() {
-        let uri = format!("urn:ns{}", i % 5);
+        // two of seven names go into the built-in namespaces (the XML namespace, no namespace)
+        let uri = match i % 7 { 5 => "http://www.w3.org/XML/1998/namespace".to_string(), 6 => String::new(), k => format!("urn:ns{}", k % 5) };
         let (local, pre) = (format!("n{}", i), format!("p{}", i));
         // read-only lookups find exactly what has been registered
         let known = names.iter().find(|(l, u, _)| *l == local && *u == uri).map(|x| x.2);
         if let Some(nsid) = xot.namespace(&uri) { if xot.name_ns(&local, nsid) != known { return Some(format!("step {}: name_ns({:?}, {:?}) = {:?} before registration, expected {:?}", step, local, uri, xot.name_ns(&local, nsid), known)); } }
-        let (nsid, nid, pid) = if f[2] == "parse" {
+        let (nsid, nid, pid) = if f[2] == "parse" && i % 7 == 5 {
+            let root = xot.parse(&format!("<d xml:{}=\"v\"/>", local)).ok()?;
+            let de = xot.document_element(root).ok()?;
+            let nid = xot.attributes(de).keys().next()?;
+            (xot.namespace_for_name(nid), nid, xot.add_prefix(&pre))
+        } else if f[2] == "parse" && i % 7 == 6 {
+            let root = xot.parse(&format!("<{}/>", local)).ok()?;
+            let de = xot.document_element(root).ok()?;
+            let nid = xot.element(de)?.name();
+            (xot.namespace_for_name(nid), nid, xot.add_prefix(&pre))
+        } else if f[2] == "parse" {
             let doc = format!("<{}:{} xmlns:{}=\"{}\"/>", pre, local, pre, uri);
             let root = xot.parse(&doc).ok()?;
             let de = xot.document_element(root).ok()?;
